@@ -716,7 +716,7 @@ def _copy_into_itself(req, impl):
     import posixpath
     try:
         a = req.split(' ')
-        src, dst = unhx(a[1]), unhx(a[2])
+        src, dst = unhx(a[1]).decode('utf8', 'replace'), unhx(a[2]).decode('utf8', 'replace')
         cwd = bytes.fromhex(impl.split(' ## ', 1)[1].split('|')[0].split(' ')[1]).decode('utf8', 'replace')
         def ab(p):
             for pr in ('file://', 'ftp://', 'http://', 'https://'):
@@ -735,7 +735,7 @@ def _copy_src_entries(req, impl):
     import posixpath
     try:
         a = req.split(' ')
-        src = unhx(a[1])
+        src = unhx(a[1]).decode('utf8', 'replace')
         recs = impl.split(' ## ', 1)[1].split('|')
         cwd = bytes.fromhex(recs[0].split(' ')[1]).decode('utf8', 'replace')
         for pr in ('file://', 'ftp://', 'http://', 'https://'):
